@@ -49,7 +49,20 @@ func Dump(d *meta.Data) string {
 	return sb.String()
 }
 
-type walker struct{ sb *strings.Builder }
+type walker struct {
+	sb    *strings.Builder
+	noPos bool
+}
+
+// DumpNoPos is Dump without the raft position (Term, Index), which Apply advances even
+// for a command that fails.
+func DumpNoPos(d *meta.Data) string {
+	var sb strings.Builder
+	sb.Grow(4096)
+	w := &walker{sb: &sb, noPos: true}
+	w.walk("", reflect.ValueOf(d).Elem())
+	return sb.String()
+}
 
 func access(v reflect.Value) reflect.Value {
 	if !v.CanInterface() && v.CanAddr() {
@@ -128,6 +141,9 @@ func (w *walker) walk(path string, v reflect.Value) {
 		for i := 0; i < t.NumField(); i++ {
 			f := t.Field(i)
 			if _, skip := skipFields[t.Name()+"."+f.Name]; skip {
+				continue
+			}
+			if w.noPos && path == "" && (f.Name == "Term" || f.Name == "Index") {
 				continue
 			}
 			w.walk(path+"."+f.Name, access(v.Field(i)))
